@@ -10,6 +10,9 @@
 import DDProofs.ParseProofs
 import DDProofs.LexProofs
 import DDProofs.ToExprProofs
+import DDProofs.ParseSem
+import DDProofs.VarsProofs
+import DDProofs.Witness
 import DDProofs.Inv
 open Std
 namespace DD
@@ -307,85 +310,80 @@ example : (match addExpr "@2 /\\ ~ @-1" ({} : Mgr) with | (.error .value, _) => 
 example : (match addExpr "@1 /\\ ~ @-1" ({} : Mgr) with | (.ok 1, _) => true | _ => false) = true := by
   decide
 
-/-! ## full-strength semantic statements (not proved here) -/
+/-! ## the semantic half: `add_expr` returns the documented meaning -/
 
-/-- assignment by variable name, seen through the order of the table -/
-def asgOf (tb : Tbl) (an : String → Bool) : Asg := fun lvl => an ((tb.l2v[lvl]?).getD "")
+/-- the order invariant of reachable managers (`C14`) is the bijection the substitution
+theorems are stated with -/
+theorem VarsBij.ofOrderOK {t : Tbl} (h : OrderOK t) : VarsBij t :=
+  ⟨fun v i hv => (h.inv v i).mp hv, fun i v hl => (h.inv v i).mpr hl, h.lt,
+   fun i hi => by obtain ⟨v, hv⟩ := h.total i hi; exact ⟨v, (h.inv v i).mpr hv⟩⟩
 
-def updName (an : String → Bool) (x : String) (b : Bool) : String → Bool :=
-  fun y => if y = x then b else an y
+/-- C05 (meaning of a formula): in a manager that satisfies the invariant, with reordering not
+enabled, for every text `s` that the front end reads as the tree `t` (`parse (tokenize s) = some t`,
+i.e. with the documented precedence and associativity — `C05_parse_text`) whose names are
+declared, whose `@n` name nodes of the manager and which does not use `=` (`Meaningful`):
+`add_expr(s)` succeeds, keeps the invariant, only adds nodes, and the reference it returns
+denotes, under every assignment of the variables by NAME, the value `evalFormula` gives to the
+tree — an independent evaluator that knows nothing about diagrams: connectives by their truth
+functions, `\A`/`\E` by expansion over the two values of each bound name, `\S` by simultaneous
+renaming, `ite` as if-then-else, `@n` as the function of node `n`. -/
+theorem C05_addExpr_spec (m : Mgr) (hI : Inv m) (hoff : m.lastLen = none) (hO : OrderOK m.tbl)
+    (s : String) (t : Ast) (hp : parse (tokenize s) = some t) (hM : Meaningful m.tbl t) :
+    ∃ r m', addExpr s m = (.ok r, m') ∧ Inv m' ∧ Ext m.tbl m'.tbl ∧ Frame m m' ∧ m'.tbl.Mem r ∧
+      ∀ an, den m'.tbl r (asgOf m'.tbl an) = evalFormula m.tbl t an := by
+  obtain ⟨r, m', he, hs, hm, hd⟩ := addExpr_spec m hI hoff (VarsBij.ofOrderOK hO) s t hp hM
+  refine ⟨r, m', he, hs.inv, hs.ext, hs.frame, hm, ?_⟩
+  intro an
+  rw [asgOf_congr hs.frame.l2v]
+  exact hd an
 
-/-- documented meaning of a syntax tree over assignments by name (`none`: no meaning) -/
-def semAst (tb : Tbl) : Ast → (String → Bool) → Option Bool
-  | .var x, an => if tb.vars.contains x then some (an x) else none
-  | .bool b, _ => some b
-  | .num neg d, an =>
-    let i : Int := if neg then -(digitsToNat d : Int) else (digitsToNat d : Int)
-    if tb.mem i then some (den tb i (asgOf tb an)) else none
-  | .not e, an => (semAst tb e an).map (!·)
-  | .bin o l r, an =>
-    match docConn o.value, semAst tb l an, semAst tb r an with
-    | some c, some u, some v => some (c.eval u v false)
-    | _, _, _ => none
-  | .ite a b c, an =>
-    match semAst tb a an, semAst tb b an, semAst tb c an with
-    | some u, some v, some w => some (if u then v else w)
-    | _, _, _ => none
-  | .quant fa ns e, an =>
-    if ns.all tb.vars.contains then
-      ns.foldr (fun x k an' =>
-        match k (updName an' x false), k (updName an' x true) with
-        | some u, some v => some (if fa then u && v else u || v)
-        | _, _ => none) (semAst tb e) an
-    else none
-  | .subst ss e, an =>
-    if ss.all (fun s => !tb.vars.contains s.2 || tb.vars.contains s.1) then
-      semAst tb e fun y =>
-        match (ss.reverse.find? fun s => s.2 == y && tb.vars.contains y) with
-        | some s => an s.1
-        | none => an y
-    else none
+/-- C05 (from the text of a tree): the canonical text of a lexically well-formed, meaningful
+tree — with the parentheses the precedence table requires and any redundant ones — is given
+the meaning of the tree -/
+theorem C05_addExpr_text_spec (m : Mgr) (hI : Inv m) (hoff : m.lastLen = none) (hO : OrderOK m.tbl)
+    (ex : Ast → Bool) (t : Ast) (hwf : t.WF) (hlex : t.LexWF) (hM : Meaningful m.tbl t) :
+    ∃ r m', addExpr (spell (printG ex t)) m = (.ok r, m') ∧ Inv m' ∧ Ext m.tbl m'.tbl ∧
+      m'.tbl.Mem r ∧ ∀ an, den m'.tbl r (asgOf m'.tbl an) = evalFormula m.tbl t an := by
+  obtain ⟨r, m', he, hI', hx, _, hm, hd⟩ :=
+    C05_addExpr_spec m hI hoff hO _ t (parse_tokenize_spell ex t hwf hlex) hM
+  exact ⟨r, m', he, hI', hx, hm, hd⟩
 
-/-- every `@n` of the tree names a node that is in the table (a node created by an earlier
-sub-formula of the same formula can also be named; the statement below leaves that case out) -/
-def numsIn (tb : Tbl) : Ast → Prop
-  | .num neg d => tb.Mem (if neg then -(digitsToNat d : Int) else (digitsToNat d : Int))
-  | .not e => numsIn tb e
-  | .bin _ l r => numsIn tb l ∧ numsIn tb r
-  | .ite a b c => numsIn tb a ∧ numsIn tb b ∧ numsIn tb c
-  | .quant _ _ e => numsIn tb e
-  | .subst _ e => numsIn tb e
-  | _ => True
+/-- the bottom-up evaluation itself (what the translator does during the reductions) -/
+theorem C05_evalAst_spec (t : Ast) (m : Mgr) (hI : Inv m) (hoff : m.lastLen = none)
+    (hO : OrderOK m.tbl) (hM : Meaningful m.tbl t) :
+    ∃ r m', evalAst t m = (.ok r, m') ∧ Step m m' ∧ m'.tbl.Mem r ∧
+      ∀ an, den m'.tbl r (asgOf m.tbl an) = evalFormula m.tbl t an :=
+  evalAst_spec t m hI hoff (VarsBij.ofOrderOK hO) hM
 
-/-- FULL STATEMENT: `add_expr` returns the documented meaning of the formula.
-Not proved in this slice: it needs the specifications of `var`, `apply` (C01), `quantify`
-(C03) and `rename` (C04); what is proved is that `add_expr` evaluates exactly the tree the
-documented precedence gives (`C05_addExpr_printed`, `C05_addExpr_text`) by `evalAst`, which
-calls those operations bottom-up with the canonical operator values (`C05_binop_values`,
-`C05_spellings_same`). -/
-def C05_addExpr_spec_statement : Prop :=
-  ∀ (m m' : Mgr) (s : String) (t : Ast) (r : Int), Inv m → m.lastLen = none →
-    parse (tokenize s) = some t → numsIn m.tbl t → addExpr s m = (.ok r, m') →
-    Inv m' ∧ m'.tbl.Mem r ∧
-    ∀ an, semAst m.tbl t an = some (den m'.tbl r (asgOf m'.tbl an))
+/-- the semantic evaluator on the operators: the documented truth tables -/
+example : evalFormula ({} : Tbl) (.bin .implies (.var "a") (.bin .xorHash (.var "b") (.not (.var "a"))))
+    (fun x => x == "b") = true := by decide
+example : evalFormula ({} : Tbl) (.quant false ["a"] (.bin .and (.var "a") (.var "b"))) (fun x => x == "b") = true ∧
+    evalFormula ({} : Tbl) (.quant true ["a"] (.bin .and (.var "a") (.var "b"))) (fun x => x == "b") = false ∧
+    evalFormula ({} : Tbl) (.subst [("b", "a")] (.var "a")) (fun x => x == "b") = true := by decide
+
+/-- non-vacuity: a manager with the variable `x` and its node `u`, and a formula with a
+quantifier, a renaming, a node reference and connectives that meets every hypothesis -/
+example : ∃ (m : Mgr) (u : Int) (d : String), Inv m ∧ m.lastLen = none ∧ VarsBij m.tbl ∧
+    Meaningful m.tbl (.bin .or (.quant false ["x"] (.bin .and (.var "x") (.bool true)))
+      (.subst [("x", "x")] (.not (.num false d)))) := by
+  obtain ⟨m, u, hI, hoff, hV, hu, hx, _, _, _⟩ := witness
+  have hc : m.tbl.vars.contains "x" = true := (vars_contains_iff _ _).mpr ⟨0, hx⟩
+  refine ⟨m, u, "1", hI, hoff, hV, by decide, ⟨?_, by decide, hc, trivial⟩, ?_, ?_⟩
+  · intro y hy; simp at hy; subst hy; exact hc
+  · intro p hp; simp at hp; subst hp; exact hc
+  · have e : digitsToNat "1" = 1 := by decide
+    simp only [Meaningful, e]
+    exact mem_one _
+
+/-! ## `to_expr` round trip -/
 
 /-- every variable name of the manager is a NAME token and not a reserved word
 (`dd` accepts any string as a variable name; `to_expr` texts of other names do not parse) -/
 def lexableNames (tb : Tbl) : Prop :=
   ∀ (lvl : Nat) (v : String), tb.l2v[lvl]? = some v → nameOk v
 
-/-- FULL STATEMENT: `add_expr(to_expr(u)) == u` -/
-def C05_addExpr_toExpr_statement : Prop :=
-  ∀ (m : Mgr) (u : Int) (s : String), Inv m → m.lastLen = none → lexableNames m.tbl → m.tbl.Mem u →
-    toExpr m.tbl u = .ok s → ∃ m', addExpr s m = (.ok u, m') ∧ Inv m'
-
-/-- the remaining (semantic) half of the round trip: evaluating the tree that unfolds the
-diagram below `u` returns `u` -/
-def C05_evalAst_toExprAst_statement : Prop :=
-  ∀ (m : Mgr) (u : Int) (f : Nat) (a : Ast), Inv m → m.lastLen = none → m.tbl.Mem u →
-    toExprAstF f m.tbl u = .ok a → ∃ m', evalAst a m = (.ok u, m') ∧ Inv m'
-
-/-- PROVED PART (syntactic half): the text written by `to_expr` is the text of the syntax
+/-- the text written by `to_expr` is the text of the syntax
 tree `a` that unfolds the diagram below `u` — `ite(var, high, low)`, the variable itself for
 `ite(var, TRUE, FALSE)`, `(~ …)` for a complemented reference; the memo table of `_to_expr`
 only shares texts — -/
@@ -416,6 +414,36 @@ theorem C05_addExpr_toExpr_partial (m : Mgr) (hn : lexableNames m.tbl) (u : Int)
     subst hp
     rw [ht']
   · simp at hp
+
+/-- C05 (round trip): in a manager that satisfies the invariant, with reordering not enabled and
+variable names that are NAME tokens and not reserved words, `add_expr(to_expr(u))` is `u` again,
+for every reference `u` of the manager (either sign); the manager keeps its invariant and only
+gains nodes.  (The printed `ite(var, high, low)` unfolding denotes the function of `u`
+— `toExprAst_sem` — and equal functions are equal references — `canonical`.) -/
+theorem C05_addExpr_toExpr (m : Mgr) (hI : Inv m) (hoff : m.lastLen = none) (hO : OrderOK m.tbl)
+    (hn : lexableNames m.tbl) (u : Int) (hu : m.tbl.Mem u) :
+    ∃ s m', toExpr m.tbl u = .ok s ∧ addExpr s m = (.ok u, m') ∧ Inv m' ∧ Ext m.tbl m'.tbl := by
+  obtain ⟨s, hs⟩ := toExpr_total m.tbl hI.wf.toWF (VarsBij.ofOrderOK hO) u hu
+  obtain ⟨m', he, hst⟩ := addExpr_toExpr m hI hoff (VarsBij.ofOrderOK hO) hn u hu s hs
+  exact ⟨s, m', hs, he, hst.inv, hst.ext⟩
+
+/-- the same for whatever text `to_expr` returned -/
+theorem C05_addExpr_toExpr_of_text (m : Mgr) (hI : Inv m) (hoff : m.lastLen = none)
+    (hO : OrderOK m.tbl) (hn : lexableNames m.tbl) (u : Int) (hu : m.tbl.Mem u) (s : String)
+    (h : toExpr m.tbl u = .ok s) :
+    ∃ m', addExpr s m = (.ok u, m') ∧ Inv m' ∧ Ext m.tbl m'.tbl := by
+  obtain ⟨m', he, hst⟩ := addExpr_toExpr m hI hoff (VarsBij.ofOrderOK hO) hn u hu s h
+  exact ⟨m', he, hst.inv, hst.ext⟩
+
+/-- non-vacuity: the witness manager (variable `x`, a NAME) meets the hypotheses -/
+example : ∃ (m : Mgr) (u : Int), Inv m ∧ m.lastLen = none ∧ VarsBij m.tbl ∧ m.tbl.Mem u ∧
+    u.natAbs ≠ 1 := by
+  obtain ⟨m, u, hI, hoff, hV, hu, _, _, hd, _⟩ := witness
+  refine ⟨m, u, hI, hoff, hV, hu, ?_⟩
+  intro h1
+  rcases abs_one h1 with h | h <;> subst h
+  · have := hd (fun _ => false); rw [den_one] at this; cases this
+  · have := hd (fun _ => true); rw [den_neg_one] at this; cases this
 
 /-- non-vacuity: a table with one variable and one node; a tree of the image of `to_expr` -/
 def exTbl : Tbl :=
